@@ -19,11 +19,17 @@ type c20Out struct {
 
 var c20Got []c20Out
 
+// natively: the output adapter is slow (a flush takes a while)
+var c20SlowAdapter bool
+
 func c20Start() {
 	c20Got = nil
 	rt.CallerFile("/repo/log/zz_verif_log_h.go", 1)
 	_ = Start()
 	adapter = AdapterFunc(func(msg Message, duplicates uint64) {
+		if c20SlowAdapter {
+			rt.NativePause()
+		}
 		ll := msg.(*logLine)
 		o := c20Out{msg: ll.msg, level: ll.level, duplicates: duplicates, tracer: ll.tracer != nil}
 		if ll.tracer != nil {
@@ -201,6 +207,34 @@ func VerifC20_Shutdown() {
 		rt.Assert(o.msg == string(rune('a'+i)), "shutdown/order-kept")
 	}
 	rt.Reach("shutdown-end")
+}
+
+// a second Shutdown call (e.g. a module and main both stopping the logger)
+// returns only after the flush as well
+func VerifC20_ShutdownTwice() {
+	rt.SchedYieldOnly(true)
+	c20Start()
+	c20SlowAdapter = true
+	SetLogLevel(TraceLevel)
+	k := rt.Len("k", 1, 3)
+	for i := 0; i < k; i++ {
+		Info(string(rune('a' + i)))
+	}
+	first := make(chan struct{})
+	go func() {
+		Shutdown()
+		close(first)
+	}()
+	rt.Yield() // the first call may be anywhere in its flush
+	if !rt.Symbolic() {
+		time.Sleep(20 * time.Millisecond)
+	}
+	Shutdown()
+	rt.Assert(c20Total() == uint64(k), "shutdowntwice/second-call-returns-after-the-flush")
+	<-first
+	rt.Assert(c20Total() == uint64(k), "shutdowntwice/everything-written-once")
+	c20SlowAdapter = false
+	rt.Reach("shutdowntwice-end")
 }
 
 // ---- O5: context tracer submissions carry all their lines ----
